@@ -15,13 +15,13 @@ setup)
 run)
   k=$1; tasks=$2; L=/tmp/lane_$k
   export ZEEP_REPO=$L/repo
-  rsync -a --exclude build --exclude replays --exclude evidence /verif/lib /verif/smi /verif/kani /verif/check /verif/known_findings.json $L/verif/ 
+  rsync -a --exclude build --exclude replays --exclude evidence /verif/lib /verif/smi /verif/kani /verif/kani_gen /verif/check /verif/known_findings.json $L/verif/ 
   while read -r d kind checks; do
     [ -z "$d" ] && continue
     git -C $L/repo checkout -q -- . ; git -C $L/repo clean -fdq zeep-lib zeep
-    git -C $L/repo apply $d/patch.diff || { echo "APPLY-FAIL $d"; continue; }
+    if [ -s $d/patch.diff ]; then git -C $L/repo apply $d/patch.diff || { echo "APPLY-FAIL $d"; continue; }; fi   # an empty patch = the unchanged tree
     for p in $checks; do
-      out=$(cd $L/verif && timeout 3000 ./check $p 2>&1); rc=$?
+      out=$(cd $L/verif && timeout ${LANE_TIMEOUT:-3000} ./check $p 2>&1); rc=$?
       echo "[$(basename $d)] $kind $p rc=$rc viol=$(echo "$out" | grep -c '^VIOLATION')"
       echo "$out" | grep -E "^INCONCLUSIVE|^  key=" | cut -c1-300 | head -3
     done
